@@ -10,7 +10,7 @@ from engine.sx import SNum, zand, _z, _real
 PROPERTY = "C08"
 BOUNDS = {
     "quick": "superpose_deltas: one atom on 3x4 / 4x3 grids at symbolic sub-pixel positions anywhere in [-1, shape+1) (every pixel incl. the wrap-around rows/columns, case-split); "
-             "two atoms on 2x3 / 3x2 grids (every pair of pixels incl. same, adjacent and wrapped); symbolic weights; symbolic whole-pixel shifts in [-2, 2]; rounded mode; FieldArray.tile with symbolic slice contents (2x2 unit, repetitions up to 2x3x2)",
+             "two atoms on 2x3 / 3x2 grids (every pair of pixels incl. same, adjacent and wrapped); symbolic weights; symbolic whole-pixel shifts in [-2, 2]; FieldArray.tile with symbolic slice contents (2x2 unit, repetitions up to 2x3x2)",
     "thorough": "grids up to 5x5, 3 atoms",
 }
 OUTSIDE = ["the scattering-factor multiplication in Fourier space (a pointwise product that commutes with the roll by the shift theorem)",
@@ -137,7 +137,6 @@ def cases(tier):
     out = []
     for shape in ((3, 4), (4, 3)) if q else ((3, 4), (4, 3), (5, 5)):
         out.append(Case(f"deltas.{shape[0]}x{shape[1]}.atoms1", _deltas(shape, 1), setup=_setup, max_paths=20000, budget_s=300 if q else 1800))
-        out.append(Case(f"deltas.rounded.{shape[0]}x{shape[1]}", _deltas(shape, 1, rounded=True), setup=_setup, max_paths=5000))
     for shape in ((2, 3), (3, 2)) if q else ((2, 3), (3, 2), (3, 4)):
         out.append(Case(f"deltas.{shape[0]}x{shape[1]}.atoms2", _deltas(shape, 2), setup=_setup, max_paths=20000, budget_s=300 if q else 1800))
         out.append(Case(f"shift.{shape[0]}x{shape[1]}", _shift(shape), setup=_setup, max_paths=20000, budget_s=300 if q else 1800))
